@@ -614,6 +614,8 @@ type StoreLine struct {
 	// read-only proofs at this version
 	ProofsTried    int    `json:"proofsTried"`
 	ProofsAccepted int    `json:"proofsAccepted"`
+	FalseTried     int    `json:"falseTried"`    // false statements about the same keys offered with the store's own proof
+	FalseAccepted  int    `json:"falseAccepted"` // ... that verified
 	ProofErr       string `json:"proofErr"`
 	Err            string `json:"err"`
 }
@@ -682,7 +684,10 @@ func storeMode(seed int64, histories int, out *json.Encoder) error {
 			st := si.(*store.Store)
 			defer st.Close()
 			state := map[string][]byte{}
-			for b, ops := range blocks {
+			snaps := map[uint64]map[string][]byte{}
+			failed, afterRollback := false, false
+			var hot [][]byte
+			doBlock := func(b int, ops []opT, last bool) {
 				line := StoreLine{Kind: "store", History: h}
 				apply := func(o opT) {
 					if o.del {
@@ -694,7 +699,7 @@ func storeMode(seed int64, histories int, out *json.Encoder) error {
 					}
 				}
 				switch variant {
-				case 0: // straight
+				case 0, 2: // straight
 					for _, o := range ops {
 						apply(o)
 					}
@@ -735,13 +740,19 @@ func storeMode(seed int64, histories int, out *json.Encoder) error {
 				if e != nil {
 					line.Err = e.Error()
 					lines = append(lines, line)
-					return roots, lines, nil
+					failed = true
+					return
 				}
+				snap := map[string][]byte{}
+				for k, v := range state {
+					snap[k] = v
+				}
+				snaps[st.Version()] = snap
 				ref := refRoot160(state)
 				line.Version, line.Keys = st.Version(), len(state)
 				line.Root, line.RefRoot, line.RootEq = hex.EncodeToString(root), hex.EncodeToString(ref), bytes.Equal(root, ref)
 				// proofs from a read-only view of the committed version, verified against the committed root
-				if b == len(blocks)-1 || rng.Intn(2) == 0 {
+				if last || rng.Intn(2) == 0 {
 					roi, e := st.NewReadOnly(st.Version())
 					if e == nil {
 						ro := roi.(*store.Store)
@@ -749,8 +760,14 @@ func storeMode(seed int64, histories int, out *json.Encoder) error {
 						if dense {
 							tries = 150
 						}
+						if afterRollback {
+							tries = 40
+						}
 						for i := 0; i < tries; i++ {
 							k := keys[rng.Intn(len(keys))]
+							if afterRollback && len(hot) > 0 && rng.Intn(4) != 0 {
+								k = hot[rng.Intn(len(hot))] // keys the abandoned blocks wrote
+							}
 							v, present := state[string(k)]
 							line.ProofsTried++
 							func() {
@@ -771,6 +788,23 @@ func storeMode(seed int64, histories int, out *json.Encoder) error {
 								if ok {
 									line.ProofsAccepted++
 								}
+								// the opposite statement, and membership with another value, must not verify with that proof
+								other := []byte("v9")
+								for _, claim := range []struct {
+									v      []byte
+									member bool
+								}{{v, !present}, {other, true}} {
+									if claim.member && present && bytes.Equal(claim.v, v) {
+										continue
+									}
+									if !claim.member && !present {
+										continue
+									}
+									line.FalseTried++
+									if ok2, _ := ro.VerifyProof(k, claim.v, claim.member, root, pf); ok2 {
+										line.FalseAccepted++
+									}
+								}
 							}()
 						}
 						ro.Discard()
@@ -780,6 +814,35 @@ func storeMode(seed int64, histories int, out *json.Encoder) error {
 				}
 				roots = append(roots, line.Root)
 				lines = append(lines, line)
+			}
+			for b, ops := range blocks {
+				if doBlock(b, ops, b == len(blocks)-1); failed {
+					return roots, lines, nil
+				}
+			}
+			if variant == 2 && st.Version() > 1 {
+				// the operator rolls the store back (offline maintenance) and the chain continues differently: what is committed
+				// afterwards must again be the root of the key/value state, provable from read-only views
+				target := 1 + uint64(rng.Intn(int(st.Version()-1)))
+				if e := st.Rollback(target); e != nil {
+					lines = append(lines, StoreLine{Kind: "store", History: h, Err: "rollback: " + e.Error()})
+					return roots, lines, nil
+				}
+				state = map[string][]byte{}
+				for k, v := range snaps[target] {
+					state[k] = v
+				}
+				afterRollback = true
+				for _, ops := range blocks {
+					for _, o := range ops {
+						hot = append(hot, o.k)
+					}
+				}
+				for b := len(blocks) - 1; b >= 0; b-- { // the old blocks in reverse order: other states than before
+					if doBlock(b, blocks[b], b == 0); failed {
+						break
+					}
+				}
 			}
 			return roots, lines, nil
 		}
@@ -795,6 +858,12 @@ func storeMode(seed int64, histories int, out *json.Encoder) error {
 			}
 			l0[i].SameState = same
 			_ = out.Encode(l0[i])
+		}
+		if _, l2, e2 := run(2); e2 == nil {
+			for i := range l2 {
+				l2[i].SameState = "n/a"
+				_ = out.Encode(l2[i])
+			}
 		}
 		for i := range l1 {
 			same := "n/a"
